@@ -6,6 +6,10 @@ THEOREMS = {
     "C05": ["ctx_fields_classified", "ctx_fields_present", "reset_touches_cleared", "reset_truncates_stores",
             "setters_leave_one_representation", "slot_blocks_present", "ctxvar_fields_known"],
     "C15": ["setters_leave_one_representation", "slot_blocks_present", "ctxvar_fields_known"],
+    "C13": ["node_types_all_modelled", "error_values_all_classified"],
+    "C17": ["error_values_all_classified"],
+    "C11": ["registered_mods_all_accounted", "registered_mods_present"],
+    "C20": ["registered_mods_all_accounted", "registered_mods_present"],
     "C19": ["ctx_fields_classified", "ctx_fields_present"],
 }
 
